@@ -520,7 +520,7 @@ func (g *G) Option(code int, depth int) (dhcpv6.Option, *tree.Node) {
 	}
 	// unknown code with arbitrary payload
 	c := R.IntN(65536)
-	for g.IsTyped != nil && g.IsTyped(c) {
+	for (g.IsTyped != nil && g.IsTyped(c)) || c == 65001 || c == 65002 { // 65001/65002 are reserved for the harness' nonce / marker options
 		c = R.IntN(65536)
 	}
 	if R.IntN(3) == 0 {
